@@ -14,6 +14,7 @@ mod util;
 
 mod drive_code;
 mod oneshot;
+mod prims;
 mod replay;
 mod rows;
 
@@ -72,6 +73,7 @@ fn main() {
         "code" => drive_code::main(&args),
         "oneshot" => oneshot::main(&args),
         "rows" => rows::main(&args),
+        "prims" => prims::main(&args),
         "replay" => replay::main(&args),
         "replay-script" => replay::main_script(&args),
         other => {
